@@ -17,7 +17,6 @@ import (
 	"syscall"
 	"time"
 
-	"github.com/honeytrap/honeytrap/utils/verifhook"
 
 	"verif/htlab/internal/core"
 	"verif/htlab/internal/lab"
@@ -242,10 +241,7 @@ var parkGate atomic.Value // chan struct{} or nil
 var parkHits int64
 
 func init() {
-	verifhook.Install(func(name string) {
-		if name != "canary.socket.prewait" {
-			return
-		}
+	lab.OnYield("canary.socket.prewait", func() {
 		if g, ok := parkGate.Load().(chan struct{}); ok && g != nil {
 			atomic.AddInt64(&parkHits, 1)
 			<-g
